@@ -1,8 +1,8 @@
 Require Extraction.
 Require Import ExtrOcamlBasic.
 From Coq Require Import NArith ZArith List.
-From CppcmsV Require Import C15.Defs C01.Defs C01.Chunked C01.Conn C01.Pool C01.Cookies.
+From CppcmsV Require Import C15.Defs C01.Defs C01.Chunked C01.Conn C01.Pool C01.Cookies C01.SMap C01.Observe.
 Definition keep_types : (N * Z * nat) := (0%N, 0%Z, 0%nat).
 Extraction "c01m.ml" keep_types hread pst0 hreq0 process_request parse_form parse_post_form is_urlencoded
   scgi_decode fcgi_decode view_of_env read_exact cstr atoll
-  scgi_decode_c fcgi_decode_c stream_of cache_of http_conn fcgi_conn_c pool_run pool0 cookies_of_env.
+  scgi_decode_c fcgi_decode_c stream_of cache_of http_conn fcgi_conn_c pool_run pool0 cookies_of_env smap_run observe observe_env.
